@@ -564,8 +564,8 @@ def run(run):
     known = [e for e in known_entries() if e.get("status") == "open"]
     known_by_class = {e["class"]: e for e in known}
 
-    n_formulas = 60 if thorough else 12          # per grammar
-    n_trees = 24 if thorough else 11             # per grammar
+    n_formulas = 60 if thorough else 8          # per grammar
+    n_trees = 24 if thorough else 9             # per grammar
     shards, smeta = [], []
     hist = {"TT": 0, "FF": 0, "UU": 0, "raise": 0, "with_mexpr": 0, "concrete_syntax": 0, "direct": 0,
             "strategy2_numeric": 0, "unencodable": 0, "wide_tree_cases": 0}
@@ -587,8 +587,10 @@ def run(run):
             trees.append(t)
         formulas = templates(g)
         counter = [0]
-        n_const, attempts = 0, 0
-        while len(formulas) < n_formulas + len(templates(g)) and attempts < 40 * n_formulas:
+        n_total = n_formulas + len(formulas)
+        n_const = sum(1 for ast in formulas if len({spec_verdict(build(ast), t, g) for t in trees}) <= 1)
+        attempts = 0
+        while len(formulas) < n_total and attempts < 60 * n_formulas:
             attempts += 1
             ast = gen_formula(rng, gname, g, [("start", "<start>")], rng.randint(1, 3), counter)
             # keep the share of formulas that are constant over this grammar's trees below one half
@@ -596,7 +598,7 @@ def run(run):
             fobj = build(ast)
             vs = {spec_verdict(fobj, t, g) for t in trees}
             if len(vs) <= 1:
-                if n_const >= n_formulas // 2:
+                if n_const >= n_total // 2:
                     continue
                 n_const += 1
             formulas.append(ast)
@@ -636,13 +638,13 @@ def run(run):
                 meta = {"grammar": gname, "tree": tree_json(t), "input": str(t), "formula": str(fobj),
                         "source": src, "how": how, "evaluate": ev, "check": ck, "spec": sp,
                         "key": key, "wide": wide}
+                kv = py_kvac(fobj)
                 try:
-                    kv = py_kvac(fobj)
                     lit = g_formula(fobj, g)
                 except Unencodable as e:
                     hist["unencodable"] += 1
                     meta["unencodable"] = str(e)
-                    kv, lit = None, None
+                    lit = None
                 meta["kvac"] = kv
                 if lit is not None:
                     cmp_spec = sp[0] == "ok"
